@@ -198,7 +198,13 @@ func (f *Frame) staticCall(st *execState, fn *ssa.Function, args, free []Val, rt
 	}
 	if pureExternals[name] {
 		e.trusted["pure external: "+name] = true
-		return f.freshResult(st, name, rtype, hint)
+		r := f.freshResult(st, name, rtype, hint)
+		if name == "fmt.Errorf" || name == "errors.New" {
+			if iv, ok := r.(IfaceV); ok {
+				e.assume(e.tb.Implies(st.reach, e.tb.Ne(iv.Typ, e.tb.ConstU(0, 64))))
+			}
+		}
+		return r
 	}
 	inl := con != nil && con.Inline
 	if !inl && con == nil && len(fn.Blocks) > 0 && e.autoInline(fn, f.depth) {
@@ -456,9 +462,68 @@ func (f *Frame) modularCall(st *execState, fn *ssa.Function, name string, con *C
 	if res == nil {
 		res = f.freshResult(st, shortCallee(name), rtype, hint)
 	}
+	// "returns" clauses: redefine integer results as ite(when, value, fresh)
+	if len(con.Returns) > 0 {
+		sc1 := f.calleeScope(st, fn, con, sig, args, res, pre, recvFirst)
+		rs := sig.Results()
+		for _, rc := range con.Returns {
+			idx := -1
+			for i := 0; i < rs.Len(); i++ {
+				if rc.Result == fmt.Sprintf("r%d", i) || (rs.At(i).Name() != "" && rs.At(i).Name() == rc.Result) || (i < len(con.Results) && con.Results[i].Name == rc.Result) {
+					idx = i
+				}
+			}
+			if idx < 0 {
+				panic(specError{"returns: unknown result " + rc.Result + " of " + name})
+			}
+			rt := rs.At(idx).Type()
+			bt, ok := rt.Underlying().(*types.Basic)
+			if !ok || bt.Info()&types.IsInteger == 0 {
+				panic(specError{"returns: only integer results can be defined (" + rc.Result + " of " + name + ")"})
+			}
+			sc1.goal = false
+			sc1.what = rc.Val.Text
+			v := sc1.toInt(sc1.eval(rc.Val.Expr), bitsOf(rt), isSigned(rt))
+			var cur *Term
+			if rs.Len() == 1 {
+				cur = res.(Scalar).T
+			} else {
+				cur = res.(TupleV).Elems[idx].(Scalar).T
+			}
+			nv := v
+			if rc.When != nil {
+				w := e.evalBool(sc1, rc.When.Expr, rc.When.Text)
+				nv = tb.Ite(w, v, cur)
+			}
+			if rs.Len() == 1 {
+				res = Scalar{nv}
+			} else {
+				tv := res.(TupleV)
+				el := append([]Val{}, tv.Elems...)
+				el[idx] = Scalar{nv}
+				res = TupleV{el}
+			}
+			// later clauses see the redefined value
+			sc1 = f.calleeScope(st, fn, con, sig, args, res, pre, recvFirst)
+		}
+	}
 	sc = f.calleeScope(st, fn, con, sig, args, res, pre, recvFirst)
+	for _, h := range con.Small {
+		if v, ok := sc.vars[h.Result]; ok && v.k == kInt && !v.t.IsConst() {
+			e.mc.small[v.t] = [2]int64{h.Lo, h.Hi}
+		}
+	}
 	for i, en := range con.Ensures {
 		if i == defIdx {
+			continue
+		}
+		skip := false
+		for _, ri := range con.retEnsures {
+			if ri == i {
+				skip = true // already built into the result definition
+			}
+		}
+		if skip {
 			continue
 		}
 		sc.goal = false
@@ -491,6 +556,46 @@ func (f *Frame) resultScope(st *execState, vals []Val) *Scope {
 		}
 	}
 	return sc
+}
+
+// checkEnsuresPaths emits one obligation per postcondition; its parts are the
+// return sites (each evaluated in its own, path-simplified state).
+func (f *Frame) checkEnsuresPaths(flags pathFlags) {
+	e := f.e
+	if f.con == nil {
+		return
+	}
+	tb := e.tb
+	for _, en := range f.con.Ensures {
+		if strings.HasPrefix(en.Label, "slow-") && e.w.tier != "thorough" {
+			e.deferred = append(e.deferred, fnName(f.fn)+"#ensures:"+en.Label)
+			continue
+		}
+		var parts []oblPart
+		var conds, goals []*Term
+		for _, r := range f.rets {
+			st := &execState{reach: r.cond, env: map[ssa.Value]Val{}, mem: r.mem, st: r.st}
+			sc := f.resultScope(st, r.vals)
+			sc.goal = true
+			g := e.evalBool(sc, en.Expr, en.Text)
+			conds = append(conds, r.cond)
+			goals = append(goals, tb.Implies(r.cond, g))
+			if g.IsTrue() || r.cond.IsFalse() {
+				continue
+			}
+			parts = append(parts, oblPart{r.cond, g})
+		}
+		st := &execState{reach: tb.Or(conds...), st: flags}
+		n := len(e.obls)
+		f.oblige(st, "ensures", en.Label, st.reach, tb.And(goals...), f.retPos, "postcondition: "+en.Text)
+		if len(e.obls) > n {
+			o := e.obls[len(e.obls)-1]
+			o.Splits = e.topSplits
+			if len(parts) > 1 {
+				o.Parts = parts
+			}
+		}
+	}
 }
 
 func (f *Frame) checkEnsures(st *execState, vals []Val, pos token.Pos) {
@@ -692,9 +797,9 @@ func (f *Frame) appendOp(st *execState, c *ssa.CallCommon, args []Val, pos token
 	np := tb.Fresh("append.ptr", BV(64))
 	ncap := tb.Fresh("append.cap", BV(64))
 	lim := c64(addrLimit)
-	e.assume(tb.Ult(c64(4096), np))
+	e.assume(tb.Ule(c64(preLimit), np))
 	e.assume(tb.Ule(newLen, ncap))
-	e.assume(tb.Ule(ncap, c64((1<<40)/esz)))
+	e.assume(tb.Ule(ncap, c64((1<<45)/esz)))
 	e.assume(tb.Ule(tb.Add(np, tb.Mul(ncap, c64(esz))), lim))
 	e.assume(tb.Ult(np, lim))
 	nbytes := tb.Mul(ncap, c64(esz))
